@@ -9,6 +9,10 @@ pub mod sess;
 use ctx::{Ctx, Tier};
 
 pub static LAST_PANIC: std::sync::Mutex<String> = std::sync::Mutex::new(String::new());
+thread_local! {
+    /// source file of the most recent panic on this thread (set by the panic hook)
+    pub static THREAD_PANIC_FILE: std::cell::RefCell<String> = const { std::cell::RefCell::new(String::new()) };
+}
 
 fn main() {
     // panics inside the subject are caught at the call boundary; keep stderr quiet
@@ -18,6 +22,8 @@ fn main() {
             if let Ok(mut g) = LAST_PANIC.lock() {
                 *g = format!("{info}");
             }
+            let loc = info.location().map(|l| l.file().to_string()).unwrap_or_default();
+            THREAD_PANIC_FILE.with(|c| *c.borrow_mut() = loc);
         }));
     }
     let args: Vec<String> = std::env::args().collect();
